@@ -116,6 +116,12 @@ Example C19_nonvacuous_languages :
   run [102; 114] [96; 96; 8230] = Some [171; 46; 46; 46] /\ run [120; 120] [97] = None.
 Proof. vm_compute. repeat split; reflexivity. Qed.
 
+(* preprocess/text.sh runs process_unicode twice: first --flatten --normalize for the language,
+   later (when lowercasing) --lower only; both with the language argument *)
+Example C19_text_sh_stages :
+  text_sh_stage1 = (false, true, true, true) /\ text_sh_stage2 = (true, false, false, true).
+Proof. split; reflexivity. Qed.
+
 (* non-vacuity: three lines, only --flatten (the flag set for which every other line
    used to come out untransformed), English: all three lines are flattened *)
 Example C19_nonvacuous_pipeline :
